@@ -72,7 +72,8 @@ def run_history(ctx, hseed, nsteps):
             else:
                 d = {rnd.choice(KEYS): rnd.choice(VALUES) for _ in range(rnd.randint(1, 3))}
                 dict_pool.append(d)
-            ne = hist.qmetadata(e, d)
+            d_obj, d = d, dict(d)  # (the history driver may go on changing the caller's object after the call: the model keeps the call-time content)
+            ne = hist.qmetadata(e, d_obj)
             if hist.callers_dict_modified:
                 b4, af = hist.callers_dict_modified.pop()
                 ctx.violation("callers-dictionary-modified", f"QMetaData changed the dictionary it was given: {b4!r} -> {af!r}; trace tail {trace[-3:]}", {"hist_seed": hseed, "nsteps": nsteps})
